@@ -254,7 +254,7 @@ def run(rep, work, tier, seed):
     leg_m(rep, work, SPEC, f"mc_{tier}", cfg_text(mc, invariants=INVS), expect_actions=["Open", "Close", "Log", "Start"],
           timeout=3000)
     if tier == "thorough":
-        small = dict(NTasks=1, N=2, MaxOps=3, Labels=["plain", "fmt"], Levels=["warning"])
+        small = dict(NTasks=1, N=3, MaxOps=4, Labels=["plain", "fmt"], Levels=["warning"])
         for bug, inv in (("fresh_trace", ["TraceInherited"]), ("outermost_logger", ["LoggerRule"]),
                          ("lost_on_format", ["LineSane"])):
             leg_mutant(rep, work, SPEC, f"mutant_{bug}", cfg_text(dict(small, Bug=bug), invariants=INVS), inv)
